@@ -29,7 +29,7 @@ LEVEL = 'exploration'
 TIERS = {
     'quick': {'runs': 16000, 'block': 400, 'run_timeout': 120,
               'wall_cap': 900, 'det_sample': 4},
-    'thorough': {'runs': 320000, 'block': 2000, 'run_timeout': 120,
+    'thorough': {'runs': 160000, 'block': 2000, 'run_timeout': 120,
                  'wall_cap': 7200, 'det_sample': 8},
 }
 RULE = ('history = write with a generated key-value dict (str/bytes keys and '
